@@ -15,7 +15,7 @@ const TAG_OP: u16 = 200;
 const TIMES: &[i32] = &[0, 1, 5, 10, 30, 100, -1, -5, -10, 127, 128, -128, -129, 32767, 32768, -32768, 65535, i32::MAX, i32::MIN, i32::MAX - 1, i32::MIN + 1, 1000];
 const DELTAS: &[i32] = &[0, 1, 2, 5, 10, 30, 100, 1000, 65536, i32::MAX, 1 << 30, -1, -3, -10];
 
-struct G<'a, 'b> { tape: &'a mut Tape<'b>, next_tag: i32, expected: Vec<(i32, i32)>, time: i32, consts: Vec<(String, i32)>, budget: usize, labels_at_edge: bool, decrease: bool, crossing: bool }
+struct G<'a, 'b> { tape: &'a mut Tape<'b>, next_tag: i32, expected: Vec<(i32, i32)>, time: i32, consts: Vec<(String, i32)>, budget: usize, labels_at_edge: bool, decrease: bool, crossing: bool, diff_labelled: bool }
 
 impl<'a, 'b> G<'a, 'b> {
     fn tag(&mut self) -> SNode {
@@ -72,7 +72,9 @@ impl<'a, 'b> G<'a, 'b> {
                         4 => Stmt::While { cond, body: self.stmts(m, depth - 1) },
                         _ => Stmt::DoWhile { cond, body: self.stmts(m, depth - 1) },
                     };
-                    out.push(s.into());
+                    // sometimes the whole structured statement carries a difficulty label (truth warns that this "may have
+                    // surprising behavior" for the jumps it generates, but the label rules for times are unaffected)
+                    if self.tape.chance(1, 6) { self.diff_labelled = true; out.push(SNode { diff: Some((*self.tape.pick(&["0", "01", "3", "*-0", "012"])).to_string()), kind: s }); } else { out.push(s.into()); }
                 }
                 _ => out.push(self.tag()),
             }
@@ -113,7 +115,7 @@ impl Property for C13 {
     }
     fn tape_len(&self, tier: Tier) -> usize { tier.pick(200, 400) }
     fn cases(&self, tier: Tier) -> u32 { tier.pick(200000, 4000000) }
-    fn required_labels(&self, _tier: Tier) -> Vec<&'static str> { vec!["compile", "decompile", "decrease", "crossing", "edge_label", "wrapped", "jump", "difficulty-run"] }
+    fn required_labels(&self, _tier: Tier) -> Vec<&'static str> { vec!["compile", "decompile", "decrease", "crossing", "edge_label", "wrapped", "jump", "difficulty-run", "difficulty-labelled-block"] }
 
     fn generate(&self, tape: &mut Tape, tier: Tier, _known: &Known) -> Value {
         let spec = default_lang();
@@ -121,7 +123,7 @@ impl Property for C13 {
             // (a) compile side
             let nconst = tape.below(3);
             let consts: Vec<(String, i32)> = (0..nconst).map(|i| (format!("K{}", i), *tape.pick(DELTAS))).collect();
-            let mut g = G { tape, next_tag: 1, expected: vec![], time: 0, consts: consts.clone(), budget: tier.pick(24, 40), labels_at_edge: false, decrease: false, crossing: false };
+            let mut g = G { tape, next_tag: 1, expected: vec![], time: 0, consts: consts.clone(), budget: tier.pick(24, 40), labels_at_edge: false, decrease: false, crossing: false, diff_labelled: false };
             let n = 1 + g.tape.below(12);
             let body = g.stmts(n, 3);
             let mut text = String::from("{\n");
@@ -129,7 +131,7 @@ impl Property for C13 {
             text.push_str(&print_body(&body));
             text.push_str("}\n");
             let wrapped = false;
-            json!({"mode": "compile", "spec": spec.to_json(), "text": text, "expected": g.expected, "edge_label": g.labels_at_edge, "decrease": g.decrease, "crossing": g.crossing, "wrapped": wrapped})
+            json!({"mode": "compile", "spec": spec.to_json(), "text": text, "expected": g.expected, "edge_label": g.labels_at_edge, "decrease": g.decrease, "crossing": g.crossing, "wrapped": wrapped, "diff_labelled": g.diff_labelled})
         } else {
             // (b) decompile side: a stream of tagged instructions with stored times, optionally jumps
             let n = 1 + tape.below(14);
@@ -186,6 +188,7 @@ impl Property for C13 {
             if case["edge_label"] == true { ctx.label("edge_label"); }
             if case["decrease"] == true { ctx.label("decrease"); }
             if case["crossing"] == true { ctx.label("crossing"); }
+            if case["diff_labelled"] == true { ctx.label("difficulty-labelled-block"); }
             if case["edge_label"] == true || case["decrease"] == true || case["crossing"] == true { ctx.nontrivial(); }
             return tx::with_truth(|truth| {
                 let compiled = match tx::compile_body(truth, &spec, &hooks, text, tx::PipeOpts::default()) {
